@@ -83,14 +83,29 @@ func (s *Session) CheckTokens(toks []tokens.Token) error {
 	return nil
 }
 
+// Clients holds one client object per token type, built with the package constructors, so that
+// several outstanding requests can share a client the way an application would.
+type Clients struct {
+	C1 type1.BasicPrivateClient
+	C2 type2.BasicPublicClient
+	C5 type5.BatchedPrivateClient
+	C3 map[string]type3.RateLimitedClient // by client secret
+}
+
+func NewClients() *Clients {
+	return &Clients{C1: type1.NewBasicPrivateClient(), C2: type2.NewBasicPublicClient(), C5: type5.NewBatchedPrivateClient(), C3: map[string]type3.RateLimitedClient{}}
+}
+
 type SessionOpts struct {
-	MaxBatch   int  // type 5: maximum number of nonces
-	BigBatches bool // type 5: also batch sizes crossing the 1->2->4 byte varint boundaries
-	OKey       *oprf.PrivateKey
-	RKeyIdx    int // -1: draw
-	Challenge  []byte
-	Issuer3    *type3.RateLimitedIssuer // reuse an issuer (same name key, origins)
-	Origin     *string
+	Clients      *Clients // nil: a fresh client object per session
+	ClientSecret []byte   // type 3: reuse this client secret
+	MaxBatch     int      // type 5: maximum number of nonces
+	BigBatches   bool     // type 5: also batch sizes crossing the 1->2->4 byte varint boundaries
+	OKey         *oprf.PrivateKey
+	RKeyIdx      int // -1: draw
+	Challenge    []byte
+	Issuer3      *type3.RateLimitedIssuer // reuse an issuer (same name key, origins)
+	Origin       *string
 }
 
 func OriginName() *rapid.Generator[string] {
@@ -118,6 +133,10 @@ func OriginName() *rapid.Generator[string] {
 // the client request state. rand.Reader must already be the case's DRBG.
 func NewSession(t *rapid.T, typ uint16, o SessionOpts) (*Session, error) {
 	s := &Session{Type: typ}
+	cl := o.Clients
+	if cl == nil {
+		cl = NewClients()
+	}
 	if o.Challenge != nil {
 		s.Challenge = o.Challenge
 	} else {
@@ -150,9 +169,9 @@ func NewSession(t *rapid.T, typ uint16, o SessionOpts) (*Session, error) {
 		var err error
 		if withBlind {
 			s.Mode = "withblind"
-			s.State1, err = type1.NewBasicPrivateClient().CreateTokenRequestWithBlind(s.Challenge, s.Nonces[0], s.KeyID, issuer.TokenKey(), P384Scalar().Draw(t, "blind"))
+			s.State1, err = cl.C1.CreateTokenRequestWithBlind(s.Challenge, s.Nonces[0], s.KeyID, issuer.TokenKey(), P384Scalar().Draw(t, "blind"))
 		} else {
-			s.State1, err = type1.NewBasicPrivateClient().CreateTokenRequest(s.Challenge, s.Nonces[0], s.KeyID, issuer.TokenKey())
+			s.State1, err = cl.C1.CreateTokenRequest(s.Challenge, s.Nonces[0], s.KeyID, issuer.TokenKey())
 		}
 		if err != nil {
 			return nil, fmt.Errorf("CreateTokenRequest: %v", err)
@@ -186,9 +205,9 @@ func NewSession(t *rapid.T, typ uint16, o SessionOpts) (*Session, error) {
 			for i := range blinds {
 				blinds[i] = RistrettoScalar().Draw(t, "blind")
 			}
-			s.State5, err = type5.NewBatchedPrivateClient().CreateTokenRequestWithBlinds(s.Challenge, s.Nonces, s.KeyID, issuer.TokenKey(), blinds)
+			s.State5, err = cl.C5.CreateTokenRequestWithBlinds(s.Challenge, s.Nonces, s.KeyID, issuer.TokenKey(), blinds)
 		} else {
-			s.State5, err = type5.NewBatchedPrivateClient().CreateTokenRequest(s.Challenge, s.Nonces, s.KeyID, issuer.TokenKey())
+			s.State5, err = cl.C5.CreateTokenRequest(s.Challenge, s.Nonces, s.KeyID, issuer.TokenKey())
 		}
 		if err != nil {
 			return nil, fmt.Errorf("CreateTokenRequest: %v", err)
@@ -215,9 +234,9 @@ func NewSession(t *rapid.T, typ uint16, o SessionOpts) (*Session, error) {
 			s.Mode = "withblind"
 			blind := RSABlind(t, s.RKey.N)
 			salt := rapid.SliceOfN(rapid.Byte(), 48, 48).Draw(t, "salt")
-			s.State2, err = type2.NewBasicPublicClient().CreateTokenRequestWithBlind(s.Challenge, s.Nonces[0], s.KeyID, issuer.TokenKey(), blind, salt)
+			s.State2, err = cl.C2.CreateTokenRequestWithBlind(s.Challenge, s.Nonces[0], s.KeyID, issuer.TokenKey(), blind, salt)
 		} else {
-			s.State2, err = type2.NewBasicPublicClient().CreateTokenRequest(s.Challenge, s.Nonces[0], s.KeyID, issuer.TokenKey())
+			s.State2, err = cl.C2.CreateTokenRequest(s.Challenge, s.Nonces[0], s.KeyID, issuer.TokenKey())
 		}
 		if err != nil {
 			return nil, fmt.Errorf("CreateTokenRequest: %v", err)
@@ -261,9 +280,17 @@ func NewSession(t *rapid.T, typ uint16, o SessionOpts) (*Session, error) {
 			}
 		}
 		s.KeyID = s.Issuer3.TokenKeyID()
-		s.ClientSecret = P384KeyBytes().Draw(t, "clientSecret")
+		if o.ClientSecret != nil {
+			s.ClientSecret = o.ClientSecret
+		} else {
+			s.ClientSecret = P384KeyBytes().Draw(t, "clientSecret")
+		}
 		s.BlindKey = P384KeyBytes().Draw(t, "requestBlind")
-		client := type3.NewRateLimitedClientFromSecret(s.ClientSecret)
+		client, ok := cl.C3[string(s.ClientSecret)]
+		if !ok {
+			client = type3.NewRateLimitedClientFromSecret(s.ClientSecret)
+			cl.C3[string(s.ClientSecret)] = client
+		}
 		var err error
 		s.State3, err = client.CreateTokenRequest(s.Challenge, s.Nonces[0], s.BlindKey, s.KeyID, s.Issuer3.TokenKey(), s.Origin, s.Issuer3.NameKey())
 		if err != nil {
